@@ -195,6 +195,15 @@ Definition create_usersig_ex (o : sigobj) : UserSigEx * option pclass :=
        | TAbsent => ({| s_obj := o; s_tag := so_tag o; s_rev := None; s_valid := true; s_err := ENone |}, None)
        end.
 
+(* ------------------------------------------------------------------------------------------ *)
+(* The code variant.  fx = false: /repo as it is.  fx = true: /repo with fixes/F21.diff applied
+   (isReqSatisfiedByUserSig returns true when the requirement gives neither bound).  The harness
+   probes the real function on every run and hands the observed variant to the model. *)
+Section Variant.
+Variable fx : bool.
+
+Definition is_none_z (o : option Z) : bool := match o with None => true | Some _ => false end.
+
 (* isReqSatisfiedByUserSig, branch by branch (Before = <, After = >) *)
 Definition is_req_satisfied_by_user_sig (rq : sigreq) (sg : UserSigEx) : bool :=
   if String.eqb (s_tag sg) "" || negb (String.eqb (s_tag sg) (sr_tag rq)) then false
@@ -202,6 +211,8 @@ Definition is_req_satisfied_by_user_sig (rq : sigreq) (sg : UserSigEx) : bool :=
        | None, _ => String.eqb (s_tag sg) (sr_tag rq)
        | _, None => String.eqb (s_tag sg) (sr_tag rq)
        | Some (mn, mx), Some r =>
+           if fx && is_none_z mn && is_none_z mx then true   (* fixes/F21.diff *)
+           else
            match mn, mx with
            | Some a, Some b => (r <? b) && (a <? r)
            | _, _ =>
@@ -615,3 +626,5 @@ Definition run_from (st : state) (evs : list event) : state :=
   fold_left (fun s ev => fst (step s ev)) evs st.
 
 Definition run (dos_enabled : bool) (evs : list event) : state := run_from (init dos_enabled) evs.
+
+End Variant.
